@@ -13,7 +13,7 @@ def check(res, thorough):
         scratch = core.scratch_dir("c13")
         try:
             tv = 0
-            for cmd, minops in (("lex-ops", 30000), ("parse-ops", 30000)):
+            for cmd, minops in (("lex-ops", 30000), ("parse-ops", 30000), ("aliasp-ops", 30000)):
                 st2, _, _ = ops_correspondence(res, scratch, cmd, tier, cmd, minops, extra_args=[str(res.seed)])
                 res.coverage[cmd] = st2
                 tv += st2.get(cmd.split("-")[0] + ".ops", 0)
